@@ -400,8 +400,8 @@ class Session:
             return "ok " + class_kind(a)
         r = fw.guarded(do)
         if len(self.conn.buffer):
+            # (left in place: what follows shows whether the refused bytes disturb the genuine continuation)
             r += f" buffer-not-empty:{len(self.conn.buffer)}"
-            self.conn.buffer = bytearray()
         return f"{r} | {obs_text(self.conn)}"
 
     def hls(self):
